@@ -221,6 +221,15 @@ def run(res, tier, seed):
         if v["sent"] >= 2 and v["delivered"] >= 1:
             res.nontrivial.add("mr:" + v["case"])
     bad = _monitor(res, wd, "mux", "Trace_Mux", mux_traces, 10 if thorough else 6, "mux")
+    # many requests in flight at once (freshness of wire IDs): own monitor run, one case per shard
+    n_ms = 12 if thorough else 6
+    ms_trace, ms_out = os.path.join(wd, "MS.trace.ndjson"), os.path.join(wd, "MS.out.ndjson")
+    vlib.run_driver("drive_c16", ["mux-stress", "--trace", ms_trace, "--n", str(n_ms), "--seed", str(seed),
+                                  "--max-reqs", "400"], stdout_path=ms_out)
+    for v in vlib.read_ndjson(ms_out):
+        res.nontrivial.add("ms:" + v["case"])
+    bad.update(_monitor(res, wd, "muxstress", "Trace_Mux", [ms_trace], n_ms, "mux_stress"))
+    n_mr += n_ms
     for cid, m in bad.items():
         ev = m["event"]
         res.mismatch("mux-trace:" + _req_of(m["why"]), {"requirement": _req_of(m["why"]), "event": ev.get("ev"),
@@ -238,6 +247,10 @@ def run(res, tier, seed):
     res.extra["mux_replays_equal_to_reference"] = n_mux - len(deviations)
     res.extra["mux_permitted_deviations"] = len(permitted)
     res.extra["mux_random_cases_recorded"] = n_mr
+    res.extra["mux_stress_cases_400_in_flight"] = n_ms
+    # observation only (not judged): a burst of responses for one request whose receiver is not polled in between
+    probe = vlib.run_driver("drive_c16", ["mux-probe"])
+    res.extra["mux_observation_undrained_burst"] = [__import__("json").loads(l) for l in probe.splitlines() if l.strip()]
     res.exhaustive = True
     res.extra["exhaustive_scope"] = ("the Gen_UdpMatch / Gen_Mux configurations listed in lib/checks/c16.py were "
                                      "enumerated completely; the seeded random runs are not exhaustive")
